@@ -846,6 +846,8 @@ def check_case(case):
                 [str(p) for p in itertools.islice(iter(rec), case["max"])]
             except OverflowError:
                 return Outcome(skip=True, classes=["recur/unprintable"])
+            except Exception:       # noqa: BLE001 - judged by the case itself
+                pass
     return check_case_inner(case)
 
 
